@@ -208,3 +208,23 @@ void h_build_start_set (void)
   build_start_set ();
   VACUITY_CANARY ();
 }
+
+/* ---- T.anode_reset (C13): yaep_parse_init gives every rule a clean per-parse name slot (caller_anode), so no tree of this parse can
+   share a parse_alloc block with a tree of an earlier parse ---- */
+void sit_init_c (void) __CPROVER_assigns () __CPROVER_ensures (1);
+void set_init_c (int n) __CPROVER_assigns () __CPROVER_ensures (1);
+void core_symb_vect_init_c (void) __CPROVER_assigns () __CPROVER_ensures (1);
+void h_parse_init (void)
+{
+  struct rules R; struct rule *r[3]; int n, i, nt;
+  world (); __CPROVER_assume (n >= 0 && n <= 3);
+  for (i = 0; i < 3; i++) { r[i] = malloc (sizeof (struct rule)); __CPROVER_assume (r[i] != NULL); }
+  for (i = 0; i < 3; i++) r[i]->next = (i + 1 < n) ? r[i + 1] : NULL;
+  R.first_rule = n > 0 ? r[0] : NULL; rules_ptr = &R;
+  yaep_parse_init (nt);
+  HAVOC (i); __CPROVER_assume (i >= 0 && i < n);
+  __CPROVER_assert (r[i]->caller_anode == NULL, "every rule starts the parse without a caller-allocated abstract node name");
+  VACUITY_CANARY ();
+}
+/* debug printer: assumed to write no parser state (V.print is not built) */
+void set_print_c (FILE *f, struct set *set, int set_dist, int nonstart_p, int lookahead_p) __CPROVER_assigns () __CPROVER_ensures (1);
